@@ -174,6 +174,177 @@ def replay_all(ctx, behs, what):
     vlib.log("%s: replayed %d behaviours, %d mismatching" % (what, len(behs), nbad))
 
 
+# ------------------------------------------------------------------ two-dimensional ABF (spec/Abf2D.tla)
+
+def config_text2(p, nb):
+    out = []
+    for i, (nm, atom) in enumerate((("zA", 1), ("zB", 2))):
+        cv = ["colvar {", "  name %s" % nm, "  width 1.0", "  lowerBoundary 0.0", "  upperBoundary %d.0" % nb[i]]
+        if p["sub"][i]:
+            cv.append("  subtractAppliedForce on")
+        cv += ["  distanceZ {", "    main { atomNumbers %d }" % atom, "    ref { dummyAtom (0,0,0) }", "    axis (0,0,1)",
+               "    oneSiteTotalForce on"]
+        if p["per"][i]:
+            cv += ["    period %d.0" % nb[i], "    wrapAround %s" % (nb[i] / 2.0)]
+        cv += ["  }", "}"]
+        out += cv
+    abf = ["abf {", "  colvars zA zB", "  fullSamples %d" % p["fullS"], "  minSamples %d" % p["minS"], "  integrate off"]
+    if not p["applyBias"]:
+        abf.append("  applyBias off")
+    if p["maxF"] != [0, 0]:
+        abf.append("  maxForce %d.0 %d.0" % tuple(p["maxF"]))
+    abf.append("}")
+    out += abf
+    for i, nm in enumerate(("zA", "zB")):
+        if p["otherF"][i]:
+            out += ["linear {", "  name other%d" % i, "  colvars %s" % nm, "  centers 0.0", "  forceConstant %d.0" % (-p["otherF"][i]), "}"]
+    return "\n".join(out) + "\n"
+
+
+class Runner2(Runner):
+    """Two variables: zA = z of atom 1, zB = z of atom 2."""
+
+    def __init__(self, drv, p, nb):
+        self.d, self.p, self.nb = drv, p, nb
+        self.cfg = config_text2(p, nb)
+        self.start()
+
+    def act(self, a, x, f, off):
+        if a == "Restart":
+            st = self.d.cmd(op="save")["state"]
+            self.d.cmd(op="destroy")
+            self.start(st)
+        r = self.d.cmd(op="step", pos=[[0.0, 0.0, x[0] + off[0]], [0.0, 0.0, x[1] + off[1]]],
+                       sys=[[0, 0, float(f[0])], [0, 0, float(f[1])]], newrun=(a == "NewRun"))
+        if r.get("op") == "died":
+            return r
+        st = self.d.cmd(op="save")
+        if st.get("op") == "died":
+            return st
+        s, g = parse_abf_state(st["state"])
+        ca, cb = r["cvs"]["zA"], r["cvs"]["zB"]
+        return {"it": r["it"], "s": s, "gmean": g, "fa": [ca["fa"][0], cb["fa"][0]],
+                "ft": [ca.get("ft", [0.0])[0], cb.get("ft", [0.0])[0]],
+                "fat": [r["fat"].get("0", [0, 0, 0]), r["fat"].get("1", [0, 0, 0])], "rc": r["rc"], "err": r["err"], "E": r["E"]}
+
+
+def compare2(exp, got, p, D):
+    bad = []
+    if got.get("op") == "died":
+        return ["died:%s" % got.get("signal")]
+    if got["it"] != exp["it"]:
+        bad.append("it")
+    n = len(exp["s"])
+    if got["s"] is None or len(got["s"]) != n or len(got["gmean"]) != 2 * n:
+        return ["grid-shape: the saved state holds %r counts and %r gradient values, the specification %d bins x 2" %
+                (got["s"] and len(got["s"]), got["gmean"] and len(got["gmean"]), n)]
+    for b in range(n):
+        es = exp["s"][b]
+        if got["s"][b] != es:
+            bad.append("samples[%d] expected %d got %d" % (b, es, got["s"][b]))
+        for i in (0, 1):
+            emean = (exp["g"][b][i] / D / es) if es > 0 else 0.0
+            if not close(got["gmean"][2 * b + i], emean):
+                bad.append("gradient[%d][%d] expected %r got %r" % (b, i, emean, got["gmean"][2 * b + i]))
+    for i in (0, 1):
+        ef = exp["F"][i] / D + p["otherF"][i]
+        if not close(got["fa"][i], ef):
+            bad.append("applied force on variable %d expected %r got %r" % (i, ef, got["fa"][i]))
+        if not close(got["fat"][i][2], ef) or abs(got["fat"][i][0]) + abs(got["fat"][i][1]) > 1e-12:
+            bad.append("atom force on atom %d expected (0,0,%r) got %r" % (i, ef, got["fat"][i]))
+        if not close(got["ft"][i], exp["ft"][i] / D):
+            bad.append("total force of variable %d expected %r got %r" % (i, exp["ft"][i] / D, got["ft"][i]))
+    return bad
+
+
+def replay_chunk2(args):
+    behs, seed = args
+    rng = random.Random(seed)
+    d = vlib.Drv()
+    out = []
+    try:
+        for beh in behs:
+            p, nb, D = beh["p"], beh["nb"], beh["d"]
+            try:
+                run = Runner2(d, p, nb)
+            except vlib.MachineryError as e:
+                out.append(("machinery", str(e), beh))
+                continue
+            res = ("ok", None, None)
+            for k, a in enumerate(beh["acts"]):
+                if a["a"] in ("First", "Step"):      # a repeated step has the engine's unchanged coordinates
+                    off = [rng.choice([0.0, 0.5, 0.25]), rng.choice([0.0, 0.5, 0.75])]
+                got = run.act(a["a"], a["x"], a["f"], off)
+                bad = compare2(a, got, p, D)
+                if bad:
+                    res = ("mismatch", {"act": k, "fields": bad, "quirk": a.get("q", False), "got": got}, beh)
+                    break
+            out.append(res)
+            if d.dead:
+                d = vlib.Drv()
+            else:
+                d.cmd(op="destroy")
+    finally:
+        d.close()
+    return [(s, i, (b if s != "ok" else None)) for s, i, b in out]
+
+
+def nontrivial_key2(beh):
+    last = beh["acts"][-1]
+    if any(v > 0 for v in last["s"]) and any(a["F"] != [0, 0] for a in beh["acts"]):
+        return json.dumps(["2d", beh["p"], [(a["a"], a["x"], a["f"]) for a in beh["acts"]]], sort_keys=True)
+    return None
+
+
+def replay_all2(ctx, behs, what):
+    n = 16
+    chunks = [(behs[i::n], ctx.seed * 1000 + 500 + i) for i in range(n) if behs[i::n]]
+    results = vlib.parallel_map(replay_chunk2, chunks, n)
+    nbad = 0
+    for chunk in results:
+        for status, info, beh in chunk:
+            ctx.evaluations += 1
+            ctx.traces += 1
+            if status == "ok":
+                continue
+            if status == "machinery":
+                raise vlib.MachineryError(info)
+            nbad += 1
+            if info.get("quirk"):
+                ctx.violation("zero-total-subtract", "subtractAppliedForce (two variables): a delivered total force that is exactly zero is not corrected "
+                              "for the previously applied force (colvar.cpp tests ft.norm2() > 0); " + "; ".join(info["fields"][:2]),
+                              {"behaviour2d": beh, "info": info})
+            else:
+                ctx.violation("replay2d-mismatch:" + info["fields"][0].split(" ")[0], "%s: action %d: %s" % (what, info["act"], "; ".join(info["fields"][:3])),
+                              {"behaviour2d": beh, "info": info})
+    for b in behs:
+        k = nontrivial_key2(b)
+        if k:
+            ctx.nontriv(k)
+    vlib.log("%s: replayed %d behaviours, %d mismatching" % (what, len(behs), nbad))
+
+
+def run2d(ctx):
+    quick = ctx.quick()
+    r = vlib.tlc("MCAbf2D", "MCAbf2D_mc_quick.cfg" if quick else "MCAbf2D_mc_thorough.cfg", workers=16, timeout=3000)
+    ctx.add_tlc(r, "MCAbf2D properties")
+    if r.violation:
+        ctx.violation("model2d:" + r.violation, "design-level invariant %s violated in spec/Abf2D.tla" % r.violation, {"tlc": vlib.counterexample(r)})
+        return
+    g = vlib.tlc("MCAbf2D", "MCAbf2D_gen.cfg", workers=16, timeout=900)
+    ctx.add_tlc(g, "MCAbf2D generation (BFS)")
+    behs = g.beh
+    rng = random.Random(ctx.seed + 5)
+    rng.shuffle(behs)
+    behs = behs[:(5000 if quick else 60000)]
+    s = vlib.tlc("MCAbf2D", "MCAbf2D_sim.cfg", workers=8, simulate=(200 if quick else 4000), depth=9, seed=ctx.seed, timeout=900)
+    ctx.add_tlc(s, "MCAbf2D generation (simulation)", exhaustive=False)
+    for b in behs[:1]:
+        ctx.sample(b)
+    replay_all2(ctx, behs, "2d-bfs-depth3")
+    replay_all2(ctx, s.beh[:(1200 if quick else 30000)], "2d-simulation")
+
+
 # ------------------------------------------------------------------ trace validation (code -> spec)
 
 def record_traces(ctx, nruns, nsteps, nb):
@@ -273,6 +444,8 @@ def run(ctx):
     ev = record_traces(ctx, 40 if quick else 600, 12 if quick else 14, 4)
     ctx.sample({"trace_excerpt": ev[:4]})
     validate_traces(ctx, ev, 4, "random-driver")
+    # 4. two variables (spec/Abf2D.tla)
+    run2d(ctx)
 
 
 def replay(ctx, path):
@@ -280,3 +453,6 @@ def replay(ctx, path):
     beh = j["payload"].get("behaviour")
     if beh:
         replay_all(ctx, [beh], "replay")
+    beh2 = j["payload"].get("behaviour2d")
+    if beh2:
+        replay_all2(ctx, [beh2], "replay")
